@@ -12,6 +12,10 @@
 //   pullstat / domstat <same options> <hex doc>                            counts only (documents too large / deep to dump)
 //   utf8 <code point>                                                      Parser::encodeUtf8
 //   defaults                                                               Options{} as constructed by the header
+//   tpull / tsax / tdom <same options> <hex doc>                           as pull / sax / dom in the build with IORA_XML_THROW_ON_ERROR=1
+//                                                                          (fail() throws std::runtime_error): every call into the parser is
+//                                                                          wrapped in try/catch, the answer ends in thrown=0|1 (tdom: `throw
+//                                                                          <kind> @o:l:c`).  In the default build these three answer bad-op.
 //
 // The document is copied into an exactly-sized heap block (no terminator, no slack), so that a read one byte past
 // the end — or one byte before the start — is an ASan report, not a silent read.
@@ -437,6 +441,85 @@ int main()
         std::string o;
         dumpNode(*root, o);
         return o;
+      }
+      if (t.size() == 7 && (t[0] == "tpull" || t[0] == "tsax" || t[0] == "tdom") && parseOpts(t, opt) && vh::ofHex(t[6], d))
+      {
+#if IORA_XML_THROW_ON_ERROR
+        Doc doc(d);
+        Dump dump(doc);
+        x::Parser p(doc.view(), opt);
+        if (t[0] == "tpull")
+        {
+          std::vector<std::string> toks;
+          std::size_t guard = doc.n + 8;
+          bool thrown = false;
+          while (true)
+          {
+            bool more = false;
+            try { more = p.next(); }
+            catch (const std::runtime_error&) { thrown = true; more = false; }   // the loop ends as if next() had returned false
+            if (!more) break;
+            toks.push_back(dump.token(p.current()));
+            if (guard-- == 0) return join(toks) + " | nonterminating";
+          }
+          std::string fin;
+          if (const x::Error* e = p.error()) fin = "err " + Dump::err(*e);          // fail() fills the error in BEFORE it throws
+          else
+          {
+            const x::Token& c = p.current();
+            fin = std::string(c.kind == x::TokenKind::Eof ? "eof" : "stopped-without-eof") + " d=" + std::to_string(c.depth) + " @" +
+                  std::to_string(c.offset) + ":" + std::to_string(c.line) + ":" + std::to_string(c.column);
+          }
+          bool again = false;
+          try { again = p.next(); }
+          catch (const std::runtime_error&) { fin += " next-after-end=threw"; }
+          if (again) fin += " next-after-end=true";
+          return join(toks) + " | " + fin + " stack=" + std::to_string(p._elementStack.size()) + " depth=" + std::to_string(p._depth) +
+                 " produced=" + std::to_string(p._producedTokens) + (thrown ? " thrown=1" : " thrown=0");
+        }
+        if (t[0] == "tsax")
+        {
+          std::vector<std::string> evs;
+          x::SaxCallbacks cb;
+          auto rec = [&](const char* tag) {
+            return [&evs, &dump, tag](const x::Token& tk) {
+              std::string s = dump.token(tk);
+              std::string k = s.substr(0, s.find(' '));
+              evs.push_back(k == tag ? s : std::string("WRONG-CALLBACK(") + tag + ")" + s);
+            };
+          };
+          cb.onXmlDecl = rec("Xd");
+          cb.onDoctype = rec("Dt");
+          cb.onStartElement = rec("S");
+          cb.onEndElement = rec("E");
+          cb.onEmptyElement = rec("Em");
+          cb.onText = rec("T");
+          cb.onCData = rec("Cd");
+          cb.onComment = rec("Cm");
+          cb.onPI = rec("Pi");
+          bool ok = false, thrown = false;
+          try { ok = x::runSax(p, cb); }
+          catch (const std::runtime_error&) { thrown = true; }
+          std::string fin = ok ? "ok" : "fail";
+          if (const x::Error* e = p.error()) fin += " err " + Dump::err(*e);
+          return join(evs) + " | " + fin + (thrown ? " thrown=1" : " thrown=0");
+        }
+        {
+          x::Error e{};
+          e.message = "<unset>";
+          std::unique_ptr<x::Node> root;
+          bool thrown = false;
+          try { root = x::DomBuilder::build(p, &e); }
+          catch (const std::runtime_error&) { thrown = true; }
+          if (thrown) return "throw " + (p.error() ? Dump::err(*p.error()) : std::string("without-error"));
+          if (!root) return "null " + Dump::err(e);      // entity decoding failures do not go through fail(): no exception
+          std::string o;
+          dumpNode(*root, o);
+          return o;
+        }
+#else
+        return "bad-op";
+#endif
       }
       if (t.size() == 2 && t[0] == "dec" && vh::ofHex(t[1], d))
       {
